@@ -90,3 +90,51 @@ Definition kinds_upward (t kt : ctable) : bool :=
 Definition probe_types (t kt : ctable) : list string := names t ++ flat_map snd kt ++ ["null"; "atom"; "no-such-type"].
 Definition kind_agrees (t kt : ctable) (k : string) : bool :=
   forallb (fun ty => Bool.eqb (typep_t kt k ty) (subtypep_t t (type_of_t kt k) ty)) (probe_types t kt).
+
+(* kinds whose own type names a registered class, and agreement of typep with subtypep on every probed type
+   other than t (t is not a registered class: known finding) *)
+Definition is_class (t : ctable) (s : string) : bool := match find_class t s with Some _ => true | None => false end.
+Definition kind_agrees_but_t (t kt : ctable) (k : string) : bool :=
+  forallb (fun ty => String.eqb (lower ty) "t" || Bool.eqb (typep_t kt k ty) (subtypep_t t (type_of_t kt k) ty)) (probe_types t kt).
+Definition kinds_agree (t kt : ctable) : bool :=
+  forallb (fun r => implb (is_class t (type_of_t kt (fst r))) (kind_agrees_but_t t kt (fst r))) kt.
+
+(* ---- lifting the table checks to statements about all type names ------------------------------------------ *)
+Lemma mem_In : forall s l, mem s l = true <-> In s l.
+Proof.
+  intros s l. unfold mem. rewrite existsb_exists. split.
+  - intros (x & I & E). apply String.eqb_eq in E. subst. assumption.
+  - intro I. exists s. split; auto. apply String.eqb_refl.
+Qed.
+Lemma assoc_In : forall s t v, assoc s t = Some v -> In (s, v) t.
+Proof.
+  intros s t. induction t as [|[k w] t IH]; intros v H; simpl in H; try discriminate.
+  destruct (String.eqb s k) eqn:E.
+  - apply String.eqb_eq in E. inversion H; subst. left. reflexivity.
+  - right. apply IH. assumption.
+Qed.
+
+(* reflexive on every name that designates a class, for any table *)
+Theorem subtypep_refl : forall t a, is_class t a = true -> subtypep_t t a a = true.
+Proof.
+  intros t a H. unfold is_class, subtypep_t in *. destruct (find_class t a) as [[na sa]|]; try discriminate.
+  rewrite String.eqb_refl. reflexivity.
+Qed.
+(* transitive on ALL names as soon as the table passes the check *)
+Theorem subtypep_trans : forall t, table_trans t = true ->
+  forall a b c, subtypep_t t a b = true -> subtypep_t t b c = true -> subtypep_t t a c = true.
+Proof.
+  intros t T a b c H1 H2. unfold subtypep_t, find_class in *.
+  destruct (assoc (lower a) t) as [sa|] eqn:Ea; try discriminate.
+  destruct (assoc (lower b) t) as [sb|] eqn:Eb; try discriminate.
+  destruct (assoc (lower c) t) as [sc|] eqn:Ec; try discriminate.
+  apply orb_true_iff in H1. apply orb_true_iff in H2. apply orb_true_iff.
+  destruct H1 as [H1|H1].
+  - apply String.eqb_eq in H1. rewrite H1 in Ea. rewrite Ea in Eb. inversion Eb; subst. rewrite H1. assumption.
+  - destruct H2 as [H2|H2].
+    + apply String.eqb_eq in H2. rewrite <- H2. right. assumption.
+    + unfold table_trans in T. rewrite forallb_forall in T. specialize (T _ (assoc_In _ _ _ Ea)). simpl in T.
+      rewrite forallb_forall in T. apply mem_In in H1. specialize (T _ H1). rewrite Eb in T.
+      rewrite forallb_forall in T. apply mem_In in H2. specialize (T _ H2).
+      apply orb_true_iff in T. destruct T as [T|T]; [left; rewrite String.eqb_sym; assumption | right; assumption].
+Qed.
